@@ -269,6 +269,8 @@ type Expect struct {
 	DepositEv *DepositEvExp
 	Recv      *RecvExp
 	RespNonce *uint64
+	// ContentDC: the emitted message's sender fields are outside the statement (submitter address is not 20 bytes)
+	ContentDC bool
 	// SemDiff: human label of the documented semantic change (for C15 evidence)
 	SemDiff string
 }
@@ -561,9 +563,11 @@ func (s *State) expectSend(e *Expect, kind, from string, dst uint32, recipient, 
 		c = make([]byte, 32)
 	}
 	fb := addrBytes(from)
-	if len(fb) > 32 {
-		e.dc("long-from-address")
-		fb = fb[:32]
+	if len(fb) != 20 {
+		e.ContentDC = true
+		if len(fb) > 32 {
+			fb = fb[:32]
+		}
 	}
 	e.Sent = &SentExp{Msg: ref.Message{Version: 0, SrcDomain: 4, DstDomain: dst, Nonce: n,
 		Sender: ref.Pad32(fb), Recipient: recipient, Caller: c, Body: body}}
@@ -645,7 +649,8 @@ func (s *State) expectDeposit(e *Expect, kind, from string, amt *big.Int, dst ui
 	}
 	fb := addrBytes(from)
 	if len(fb) != 20 {
-		e.dc("from-not-20-bytes")
+		// the statement fixes the message content for 20-byte submitters only; who is debited is fixed for every depositor
+		e.ContentDC = true
 		if len(fb) > 32 {
 			fb = fb[:32]
 		}
@@ -694,7 +699,9 @@ func (s *State) expectReplace(e *Expect, msg *ct.MsgReplaceMessage) {
 	if om.SrcDomain != 4 {
 		e.fail("foreign-domain", "C09")
 	}
-	if !validAddr(msg.From) || !bytes.Equal(ref.Pad32(trunc32(addrBytes(msg.From))), om.Sender) || len(addrBytes(msg.From)) > 32 {
+	if validAddr(msg.From) && len(addrBytes(msg.From)) != 20 {
+		e.dc("submitter-address-not-20-bytes") // how such an account is named in a 32-byte sender field is not fixed by the statement
+	} else if !validAddr(msg.From) || !bytes.Equal(ref.Pad32(addrBytes(msg.From)), om.Sender) {
 		e.fail("not-original-sender", "C09")
 	}
 	if len(msg.NewDestinationCaller) != 32 {
@@ -754,7 +761,9 @@ func (s *State) expectReplaceDeposit(e *Expect, msg *ct.MsgReplaceDepositForBurn
 	if !bytes.Equal(om.Sender, modulePadded) {
 		e.fail("not-module-sent", "C09", "C05")
 	}
-	if !validAddr(msg.From) || len(addrBytes(msg.From)) > 32 || !bytes.Equal(ref.Pad32(addrBytes(msg.From)), bm.Sender) {
+	if validAddr(msg.From) && len(addrBytes(msg.From)) != 20 {
+		e.dc("submitter-address-not-20-bytes")
+	} else if !validAddr(msg.From) || !bytes.Equal(ref.Pad32(addrBytes(msg.From)), bm.Sender) {
 		e.fail("not-depositor", "C09")
 	}
 	em := s.Emitted[om.Nonce]
